@@ -19,7 +19,7 @@ uint64_t pickSize(Rng& r, bool thorough) {
 	case 2: return 5 + r.below(4);
 	case 3: case 4: case 5: return r.below(64);
 	case 6: case 7: case 8: case 9: return r.below(5000);
-	case 10: return r.chance(1, 2) ? r.below(64) : boundarySize(r, thorough ? 17 : 15);
+	case 10: { if (r.chance(1, 2)) return r.below(64); uint64_t b = boundarySize(r, thorough ? 17 : 15), h = r.chance(2, 3) ? 0 : r.chance(1, 2) ? 8 : 4; return b > h ? b - h : b; } // - 8: block header + payload on a boundary
 	case 11: return r.chance(1, 6) ? 131071 + r.below(3) : r.below(300);
 	case 12: return 131071 + r.below(3);
 	default: return r.chance(1, 2) ? 262143 : 262145;
